@@ -66,14 +66,20 @@ def k7(tier):
              hooks=[r'^_ZN5quill2v96detail13BackendWorker32_dispatch_transit_event_to_sinksE=vh_dispatch', r'^_ZNK5quill2v96detail20ThreadContextManager26has_invalid_thread_contextEv=vh_has_invalid',
                     r'^_ZN5quill2v96detail20ThreadContextManager40remove_shared_invalidated_thread_contextEPKNS1_13ThreadContextE=vh_remove_ctx'],
              models=['m_transit.c', 'm_throw.c', 'm_env.c'], libmodels=['m_string.c', 'm_stl.c'], unwind=24, unwindset=['strlen.0:40'], byteloops=True, cdefs=['VLL_PTRCELLS'], tier=tier, timeout=280,
-             bounds='registry of 2 thread contexts (static storage), each exited or alive, with 0..1 queued record and 0..1 buffered event; the cache holds a prefix of them (0..2) before the refresh; new-context flag raised whenever a context is not cached yet, else symbolic',
+             bounds='registry of 2 thread contexts (static storage), each exited or alive, with 0..1 queued record and 0..1 buffered event; the cache holds a prefix of them (0..2) before the refresh; new-context flag raised',
              what='K7: real _update_active_thread_contexts_cache + ThreadContextManager::new_thread_context_flag/for_each_thread_context, then real _cleanup_invalidated_thread_contexts: after a refresh every registered context is cached in order (none skipped), so every exited and drained context is handed back for reclamation by the next clean-up and the others stay')
-QUERIES += [k4('quick'), k1b('quick'), k6('quick'), k7('quick')]
+def k7l(tier):
+    q = k7(tier); q.name = 'K7_cache_refresh'; q.entry = 'h_update_only'
+    q.zero = [r'^_ZNSt6vectorIPN5quill2v96detail13ThreadContextESaIS4_EE17_M_realloc_insert']      # growth of the cache vector is an empty stub: the harness gives the cache static storage for 4 entries, so growth is never needed in the call under test (a lost entry would fail the size assertion)
+    q.bounds = 'registry of 2 thread contexts (static storage), each exited or alive, nothing queued or buffered; one cached before the refresh; new-context flag raised'
+    q.what = 'K7: real _update_active_thread_contexts_cache + ThreadContextManager::new_thread_context_flag / for_each_thread_context: after a refresh EVERY registered context is cached, in registration order - also a context whose thread has exited with nothing pending (only cached contexts are handed back by the clean-up K6) - and the request flag is consumed'
+    return q
+QUERIES += [k4('quick'), k1b('quick'), k6('quick'), k7l('quick'), k7('unregistered')]      # K7 does not finish (DESIGN.md section 7)
 QUERIES += [k3(2, 0, 'quick'), k3(1, 1, 'quick'), k3(1, 2, 'quick', wide=0), k3(2, 2, 'thorough', timeout=1700, wide=0), k3(1, 2, 'thorough', timeout=1700)]
 # NOTE: harness/C03_backend.cpp + harness/bk.h (kernels K1/K3 on the real BackendWorker) are kept in the tree but NOT registered:
 # at 1-2 contexts x 1-2 records CBMC needed > 60 GB / did not finish in 10 min (see DESIGN.md section 7).
 MANIFEST = {
- 'text': 'Reduced scope. Decided by the solver on the real code: K2, the per-thread backend ring (TransitEventBuffer) keeps exact FIFO content across position wrap-around, expansion and shrink (inductive step from an arbitrary ring state); K3, the real _process_lowest_timestamp_transit_event dispatches per call exactly one event, the minimum timestamp over all thread buffers, pops exactly that one and reports false iff nothing is buffered, so every buffered event is dispatched once and in global timestamp order; The per-sink fan-out is decided by C16 per_sink_loop and C12 multiline_*, the queues by C01/C02, the level gate by C16, the codec by C04. K1, the real _read_and_decode_frontend_queue on records written by the real log_statement decodes them in order into the ring with their timestamp/metadata/logger/flush flag, marks exactly the decoded records as read, stops at the hard limit and leaves a held-back record and everything behind it unconsumed. K5, the real _poll() and _exit() loops with the kernels replaced by these contracts (IR hooks) never write out of timestamp order, never lose a record while producers keep logging, and at exit write everything. The composition is thereby decided at the level of the contracts; K4, the emptiness predicate guarding clean-up, is true only when nothing is queued or buffered anywhere. NOT solved: one run with all real kernels in place at once (too large), args decoding/rendering inside K1, the unbounded-queue read path.',
+ 'text': 'Reduced scope. Decided by the solver on the real code: K2, the per-thread backend ring (TransitEventBuffer) keeps exact FIFO content across position wrap-around, expansion and shrink (inductive step from an arbitrary ring state); K3, the real _process_lowest_timestamp_transit_event dispatches per call exactly one event, the minimum timestamp over all thread buffers, pops exactly that one and reports false iff nothing is buffered, so every buffered event is dispatched once and in global timestamp order; The per-sink fan-out is decided by C16 per_sink_loop and C12 multiline_*, the queues by C01/C02, the level gate by C16, the codec by C04. K1, the real _read_and_decode_frontend_queue on records written by the real log_statement decodes them in order into the ring with their timestamp/metadata/logger/flush flag, marks exactly the decoded records as read, stops at the hard limit and leaves a held-back record and everything behind it unconsumed. K5, the real _poll() and _exit() loops with the kernels replaced by these contracts (IR hooks) never write out of timestamp order, never lose a record while producers keep logging, and at exit write everything. The composition is thereby decided at the level of the contracts; K4, the emptiness predicate guarding clean-up, is true only when nothing is queued or buffered anywhere. K2 life cycle: a ring built by the real constructor from a requested capacity that is not a power of two keeps exact FIFO content through growth, drain, shrink (which takes effect) and refill. K7: after a cache refresh every registered thread context is cached in registration order (none skipped), so the clean-up K6 can hand back every exited and drained context. NOT solved: one run with all real kernels in place at once (too large), args decoding/rendering inside K1, the unbounded-queue read path.',
  'note': 'K2: capacities 1,2 (quick) / 4 (thorough). K1: one context, <= 3 header-only records (Log/Flush), args decoding and rendering not involved; K3: 2 contexts x <= 2 events, light worker (only the members the kernel touches are constructed), dispatch observed by an IR hook. TransitEvent payload replaced by a shallow model. Trusted: clang IR, translator, CBMC.',
  'technique': 'CBMC/SAT over clang IR of the real TransitEventBuffer and BackendWorker dispatch kernel from symbolic states; IR-level observation hooks; native replay',
 }
